@@ -39,6 +39,20 @@ def check_pointwise_side_conditions(s):
     iv = s.target.id
     body = ast.Module(body=s.body, type_ignores=[])
     stored = set()
+    # names that are nothing but the loop variable: assigned exactly once in the body, at its top level, as `name = <loop variable>` (e.g. the index of a
+    # desugared enumerate loop)
+    counts = {}
+    for n in ast.walk(body):
+        if isinstance(n, (ast.Assign, ast.AugAssign, ast.For, ast.comprehension)):
+            for t0 in (n.targets if isinstance(n, ast.Assign) else [n.target]):
+                for t in ast.walk(t0):
+                    if isinstance(t, ast.Name) and isinstance(t.ctx, ast.Store):
+                        counts[t.id] = counts.get(t.id, 0) + 1
+    same_as_iv = {iv}
+    for st_ in s.body:
+        if isinstance(st_, ast.Assign) and len(st_.targets) == 1 and isinstance(st_.targets[0], ast.Name) and isinstance(st_.value, ast.Name) \
+                and st_.value.id == iv and counts.get(st_.targets[0].id) == 1:
+            same_as_iv.add(st_.targets[0].id)
     for n in ast.walk(body):
         if isinstance(n, (ast.Assign, ast.AugAssign)):
             tgts = n.targets if isinstance(n, ast.Assign) else [n.target]
@@ -51,7 +65,7 @@ def check_pointwise_side_conditions(s):
                         base = sub.value
                         while isinstance(base, ast.Subscript):
                             base = base.value
-                        if not (isinstance(idx, ast.Name) and idx.id == iv):
+                        if not (isinstance(idx, ast.Name) and idx.id in same_as_iv):
                             # store into a per-iteration local dict is fine if the dict itself is assigned in the body
                             if isinstance(base, ast.Name) and base.id in _assigned_names(body):
                                 continue
@@ -73,7 +87,7 @@ def check_pointwise_side_conditions(s):
             if nm in stored:
                 sl = n.slice
                 idx = sl.elts[-1] if isinstance(sl, ast.Tuple) else sl
-                if not (isinstance(idx, ast.Name) and idx.id == iv):
+                if not (isinstance(idx, ast.Name) and idx.id in same_as_iv):
                     raise Unsupported('pointwise loop: read of a stored array at an index other than the loop variable (line %d)' % n.lineno)
     # no loop-carried scalar: every plain name assigned in the body is assigned before it is read
     seen = set()
